@@ -46,7 +46,7 @@ Generic == \E k \in I3 : (2 * C.sn[k]) % C.sd # 0
 
 (* ---- event well-formedness (machinery) *)
 EventRotsInCrystalGroup ==
-  (pc = "choose" /\ E.crystal # "") =>
+  (AtEnd /\ E.crystal # "") =>
      /\ Rots(C) \subseteq GroupTable[E.crystal]
      /\ (E.full => Rots(C) = GroupTable[E.crystal])
 
@@ -64,7 +64,7 @@ ImplQpointsGeneric == Ready /\ Generic => ReqQpoints(C, EM, E.res)
 ImplExact == AtEnd => E.res.exact
 ImplOffIsFull == Ready => ReqOffIsFull(C, EM, E.res)
 ImplSymOnOffEqual ==
-  (Ready /\ NPts(RM) * Cardinality(ReqOps(C)) <= 1600) => ReqSymOnOffEqual(C, EM, E.res)
+  (Ready /\ NPts(EM) * Cardinality(ReqOps(C)) <= 600) => ReqSymOnOffEqual(C, EM, E.res)
 (* what Phonopy.init_mesh hands to the grid is the crystal's point group *)
 ImplGroupIsExact ==
   (AtEnd /\ C.level = "api") => E.passed.rots = GroupTable[E.crystal]
